@@ -378,7 +378,7 @@ def flat_effects(effs):
 
 class Interp:
     def __init__(self, facts, inline=None, fail_site=None, opaque_defs=(), max_paths=MAX_PATHS,
-                 assume_ok=True, fork_fallible=False, on_call=None, summarise_pure=True):
+                 assume_ok=True, fork_fallible=False, on_call=None, summarise_pure=True, summarise_predicates=False):
         """
         inline(fnrec, call_term) -> bool    decides whether a local callee body is inlined
         fail_site: site tuple of the single fallible opaque call that returns Err on this run
@@ -395,6 +395,7 @@ class Interp:
         self.on_call = on_call
         self.merge_accessors = True
         self.summarise_pure = summarise_pure
+        self.summarise_predicates = summarise_predicates
         self.npaths = 0
         self.fallible_sites = []
         self._loops_cache = {}
@@ -741,6 +742,13 @@ class Interp:
             kv = st.variants.get(v)
             if kv is not None:
                 return INT(kv)
+            if v[0] == 'opt_as_ref' and v[1][0] == 'ref':
+                # Option::as_ref / as_mut keep the variant: the discriminant is the referent's
+                w = self.read(st, v[1][1])
+                kw = st.variants.get(w)
+                if kw is not None:
+                    return INT(kw)
+                return ('discr', w)
             return ('discr', v)
         if k == 'agg':
             ops = [self.operand(st, fr, x) for x in rv['ops']]
@@ -864,6 +872,14 @@ class Interp:
                             break
                     nxt = [tgt]
                 else:
+                    # `x == Enum::Variant` (derived PartialEq compares discriminants) is the same test as matching x on that
+                    # variant: record it as a constraint on discr(x), as a `match` would
+                    conv = None
+                    if d[0] == 'bin' and d[1] in ('Eq', 'Ne') and d[2][0] == 'discr' and d[3][0] == 'int':
+                        op_, k_ = d[1], d[3][1]
+                        d = d[2]
+                        conv = lambda v, op_=op_, k_=k_: (k_ if ((op_ == 'Eq') == ((v != 0) if isinstance(v, int) else True))
+                                                           else ('not', (k_,)))
                     known = self.lookup_con(st, d)
                     opts = []
                     vals = [int(v) for v, _ in t['targets']]
@@ -874,6 +890,8 @@ class Interp:
                     oth = t['otherwise']
                     if not self.is_unreachable(fn, oth):
                         opts.append((('not', tuple(vals)), oth))
+                    if conv is not None:
+                        opts = [(conv(v), b) for v, b in opts]
                     if known is not None:
                         opts = [(v, b) for v, b in opts if self.con_compatible(known, v)]
                     if not opts:
@@ -1099,6 +1117,8 @@ class Interp:
         info['carried'] = sorted(path_str(p) for p in W)
         info['entry'] = {path_str(p): self.read(st, p) for p in W}
         info['carried_paths'] = {path_str(p): p for p in W}
+        if info['kind'] == 'loop' and bodies:
+            self.counted_loop(st, info, bodies, W, lvname)
         loop_eff = ('loop', uid, info, bodies)
         for s in exits:
             tail = s.eff[mark:]
@@ -1117,6 +1137,73 @@ class Interp:
                     finished.append(s)
                 else:
                     finished.append(s)
+
+    def counted_loop(self, st, info, bodies, W, lvname):
+        """`let mut i = k; while i < N { ..; i += 1 }` is the loop `for _ in k..N`: when one carried integer starts at a constant,
+        is compared `i < N` (N loop-invariant) at the top of every iteration and is left as i + 1 by every iteration, the loop gets
+        the iterator Range{k, N} like its `for` spelling."""
+        # countdown spelling: `let mut left = N; while left > 0 { ..; left -= 1 }`
+        for p in W:
+            n0 = self.read(st, p)
+            lv = ('lv', lvname, path_str(p))
+            ok = bool(bodies)
+            for b in bodies:
+                first = [(t, v) for t, v in b['cons'] if t[0] == 'bin' and t[1] in CMP_OPS][:1]
+                endv = b['mem'].get(p)
+                if not first or not endv:
+                    ok = False
+                    break
+                t, v = first[0]
+                tv = (v != 0) if isinstance(v, int) else True
+                pos = (t[1] == 'Lt' and t[2] == ('int', 0) and t[3] == lv and tv) or (t[1] == 'Le' and t[2] == lv and t[3] == ('int', 0) and not tv) \
+                    or (t[1] == 'Ne' and {t[2], t[3]} == {lv, ('int', 0)} and tv and str(t[4]).startswith('u')) \
+                    or (t[1] == 'Eq' and {t[2], t[3]} == {lv, ('int', 0)} and not tv and str(t[4]).startswith('u'))
+                if not pos or not (endv[0] == 'bin' and endv[1] == 'Sub' and endv[2] == lv and endv[3] == ('int', 1)):
+                    ok = False
+                    break
+            if ok:
+                ty = bodies[0]['mem'].get(p)[4]
+                info['kind'] = 'for'
+                info['counted'] = path_str(p)
+                info['iter'] = agg('std::ops::Range<%s>' % ty, 'Range', 0, (('start', ('int', 0)), ('end', n0)))
+                return
+        for p in W:
+            k0 = self.read(st, p)
+            if k0[0] != 'int':
+                continue
+            lv = ('lv', lvname, path_str(p))
+            bound = None
+            ok = True
+            for b in bodies:
+                first = [(t, v) for t, v in b['cons'] if t[0] == 'bin' and t[1] in CMP_OPS][:1]
+                if not first:
+                    ok = False
+                    break
+                t, v = first[0]
+                tv = (v != 0) if isinstance(v, int) else True
+                if t[1] == 'Lt' and t[2] == lv and tv and not contains(t[3], ('lv', lvname)) and not any(
+                        isinstance(x, tuple) and x and x[0] == 'lv' and x[1] == lvname for x in subterms(t[3])):
+                    n_ = t[3]
+                elif t[1] == 'Le' and t[3] == lv and not tv and not any(
+                        isinstance(x, tuple) and x and x[0] == 'lv' and x[1] == lvname for x in subterms(t[2])):
+                    n_ = t[2]
+                else:
+                    ok = False
+                    break
+                if bound is not None and n_ != bound:
+                    ok = False
+                    break
+                bound = n_
+                endv = b['mem'].get(p)
+                if not (endv and endv[0] == 'bin' and endv[1] == 'Add' and {endv[2], endv[3]} == {lv, ('int', 1)}):
+                    ok = False
+                    break
+            if ok and bound is not None:
+                ty = bodies[0]['mem'].get(p)[4]
+                info['kind'] = 'for'
+                info['counted'] = path_str(p)
+                info['iter'] = agg('std::ops::Range<%s>' % ty, 'Range', 0, (('start', k0), ('end', bound)))
+                return
 
     def mentions_elem_of(self, t, uid):
         for x in subterms(t):
@@ -1262,7 +1349,10 @@ class Interp:
         """Inline a local callee behind a barrier at its return.  One resulting path: adopt it.  Several
         paths that are all pure (no effect, no memory change besides the result): do not fork the caller,
         the result is the uninterpreted application ('app', def, args).  Otherwise adopt all paths."""
-        snap = st.fork() if self.summarise_pure else None
+        # a predicate (pure fn returning bool) is made to be branched on: summarising it as an opaque application would hide the
+        # comparisons it stands for from every path-sensitive rule, so predicates always fork
+        is_pred = target.get('locals') and target['locals'][0].get('ty') == 'bool'
+        snap = st.fork() if (self.summarise_pure and (self.summarise_predicates or not is_pred)) else None
         n_eff = len(st.eff)
         depth = len(st.frames) + 1
         self.push_frame(st, fr, target, args, dest, ret_target, site)
@@ -1712,6 +1802,13 @@ class Interp:
             if x[0] == 'ref' or y[0] == 'ref':
                 x = self.strip_ref(st, x) if x[0] == 'ref' else x
                 y = self.strip_ref(st, y) if y[0] == 'ref' else y
+            # fieldless enum variants: equality is equality of discriminants
+            if is_agg(x) and is_agg(y) and not x[4] and not y[4] and x[1] == y[1] and x[1] in self.F.adts:
+                return ('bool', (x[3] == y[3]) == (op == 'Eq'))
+            for a_, b_ in ((x, y), (y, x)):
+                if is_agg(a_) and not a_[4] and a_[1] in self.F.adts and self.F.adts[a_[1]].get('kind') == 'enum' and not is_agg(b_) \
+                        and all(not v_.get('fields') for v_ in self.F.adts[a_[1]]['variants']):
+                    return cmp_atom(op, ('discr', b_), INT(a_[3]), 'isize')
             return cmp_atom(op, x, y, 'partial_eq')
         if decl in ('std::boxed::Box::<T>::new_uninit', 'std::boxed::box_assume_init_into_vec_unsafe'):
             if decl.endswith('into_vec_unsafe'):
